@@ -211,10 +211,19 @@ def _slice_roles(tree, named):
            "b_factor": "_temp_f"}
     out = {}
     cell_locals = {}
+    # a slice taken once into a local (`field = line[_charge]`) and used from there
+    local_slice = {}
+    for n in ast.walk(gs):
+        if isinstance(n, ast.Assign) and len(n.targets) == 1 and isinstance(n.targets[0], ast.Name) and isinstance(n.value, ast.Subscript) \
+                and isinstance(n.value.slice, ast.Name) and n.value.slice.id in named:
+            local_slice[n.targets[0].id] = n.value.slice.id
     for n in ast.walk(gs):
         if not (isinstance(n, ast.Assign) and len(n.targets) == 1):
             continue
         t, sl = n.targets[0], slice_in(n.value)
+        if sl is None and not isinstance(t, ast.Name):
+            via = [c.id for c in ast.walk(n.value) if isinstance(c, ast.Name) and c.id in local_slice]
+            sl = local_slice[via[0]] if via else None
         if sl is None:
             continue
         if any(isinstance(c, ast.Constant) and c.value == "HETATM" for c in ast.walk(n.value)):
@@ -884,9 +893,21 @@ def gen_logic(tree, psrc, paths):
     required = ["recordNames", "atomWrap", "resWrap", "defaultTexts", "alignRule", "chargeText", "isStack", "endmdl", "carriable", "heteroIndices",
                 "int64Casts", "setBondsArgs", "solventList", "conectPerRecord", "conectParts", "conectRange", "conectSlices", "bondMapInit", "padWidth", "heteroTest",
                 "chargeSigns", "chargeBlank", "chargeReversed", "altlocModes", "extraFields", "altlocBest", "altlocIdOrder"]
-    missing = [k for k in required if not facts.get(k)]
-    if missing:
-        raise ValueError(f"file.py / filter.py: constructs not found in the expected shape: {missing}")
+    # a fact that is no longer found in the shape the model was written against is not an extractor failure: it is emitted as such,
+    # and the obligation that pins it fails by name
+    for k in required:
+        if not facts.get(k):
+            facts[k] = 0 if k == "conectPerRecord" else ("<not found in the expected shape>" if k in ("isStack", "endmdl", "heteroIndices", "bondMapInit",
+                                                                                                   "chargeSigns", "chargeReversed", "altlocIdOrder")
+                                                         else ["<not found in the expected shape>"])
+    if not isinstance(facts.get("padWidth"), int):
+        facts["padWidth"] = 0
+    if facts.get("conectRange") == ["<not found in the expected shape>"]:
+        facts["conectRange"] = []
+    if facts.get("conectParts") == ["<not found in the expected shape>"]:
+        facts["conectParts"] = []
+    if facts.get("conectSlices") == ["<not found in the expected shape>"]:
+        facts["conectSlices"] = []
 
     def relabel(texts):
         """number the canonical locals (v17, P3 …) by first appearance inside this fact only"""
